@@ -167,6 +167,9 @@ var (
 	stCallRe = regexp.MustCompile(`^(\d+)\s+(pwrite64|fsync|fdatasync|write)\((\d+)(.*)$`)
 	stResRe  = regexp.MustCompile(`^(\d+)\s+<\.\.\. (pwrite64|fsync|fdatasync|write) resumed>.*= (-?\d+)`)
 	stAckRe  = regexp.MustCompile(`"\d+ ack (\d+)\\n"`)
+	// an openat split by strace into "<unfinished ...>" and "<... openat resumed>" lines
+	stOpenUnfRe = regexp.MustCompile(`^(\d+)\s+openat\([^,]+, "([^"]+)".*<unfinished`)
+	stOpenResRe = regexp.MustCompile(`^(\d+)\s+<\.\.\. openat resumed>.*= (\d+)`)
 )
 
 // checkSyscallOrder parses an strace log of one ingest process. Lines of strace -f appear in an order that respects every
@@ -189,6 +192,7 @@ func checkSyscallOrder(tracePath string) (string, int) {
 	}
 	pendW := map[string]string{}
 	pendS := map[string]pend{}
+	pendO := map[string]string{}
 	sum := func(m map[string]int, suffix string) int {
 		n := 0
 		for f, c := range m {
@@ -202,6 +206,17 @@ func checkSyscallOrder(tracePath string) (string, int) {
 	for _, ln := range strings.Split(string(b), "\n") {
 		if m := stOpenRe.FindStringSubmatch(ln); m != nil {
 			fdPath[m[3]] = m[2]
+			continue
+		}
+		if m := stOpenUnfRe.FindStringSubmatch(ln); m != nil {
+			pendO[m[1]] = m[2]
+			continue
+		}
+		if m := stOpenResRe.FindStringSubmatch(ln); m != nil {
+			if path, ok := pendO[m[1]]; ok {
+				fdPath[m[2]] = path
+				delete(pendO, m[1])
+			}
 			continue
 		}
 		if m := stCallRe.FindStringSubmatch(ln); m != nil {
@@ -234,6 +249,10 @@ func checkSyscallOrder(tracePath string) (string, int) {
 				if a := stAckRe.FindStringSubmatch(rest); a != nil {
 					acks++
 					cd, cm := sum(covered, ".docs"), sum(covered, ".meta")
+					if sum(completed, ".docs") == 0 || sum(completed, ".meta") == 0 {
+						// no write to a fraction file was recognised at all: the trace could not be mapped to files (not a verdict)
+						return "inconclusive: no pwrite64 to .docs/.meta recognised in the trace", acks
+					}
 					if cd < acks || cm < acks {
 						return fmt.Sprintf("syscall trace: acknowledgement #%d (bulk %s) is issued while only %d docs / %d meta blocks are covered by a completed fsync", acks, a[1], cd, cm), acks
 					}
@@ -305,6 +324,8 @@ func c01Strace(w *h.W, batch int) {
 	switch {
 	case res.TimedOut:
 		w.Inconclusive("watchdog: strace phase did not finish")
+	case strings.HasPrefix(bad, "inconclusive:"):
+		w.Inconclusive(bad)
 	case bad != "":
 		w.Violation("C01:syscall-order", map[string]any{"diff": bad, "case": desc})
 	case acked != nb || seen != nb:
@@ -372,13 +393,24 @@ func runC01(w *h.W, batch int) {
 			}
 			spec.Steps = append(spec.Steps, phaseStep{Op: "verify"})
 			var fresh []*c01Bulk
+			concurrent := false
 			crashDesc := "none"
 			if !last {
 				nb := hr.Range(1, 4)
+				concurrent = hr.Chance(1, 3)
+				if concurrent {
+					// the bulks of this round are in flight at once (several clients): block order in .docs and .meta may differ
+					nb = hr.Range(2, 6)
+				}
 				for i := 0; i < nb; i++ {
 					b := mkBulk()
 					fresh = append(fresh, b)
-					spec.Steps = append(spec.Steps, phaseStep{Op: "bulk", Bulk: b.id})
+					if !concurrent {
+						spec.Steps = append(spec.Steps, phaseStep{Op: "bulk", Bulk: b.id})
+					}
+				}
+				if concurrent {
+					spec.Steps = append(spec.Steps, phaseStep{Op: "bulk_par", Bulk: fresh[0].id, N: nb})
 				}
 				switch hr.Intn(8) {
 				case 0: // clean exit without stopping the store
@@ -398,7 +430,7 @@ func runC01(w *h.W, batch int) {
 			specPath := filepath.Join(work, fmt.Sprintf("spec-%d.json", round))
 			writeSpec(specPath, spec)
 			desc := map[string]any{"history": fmt.Sprintf("b%d/h%d", batch, hi), "round": round, "sizes": sizeClass, "restart_after": prevCrash, "tear_applied": prevTear,
-				"bulks_known": len(bulks) - len(fresh), "then_ingest": len(fresh), "then_crash_at": crashDesc}
+				"bulks_known": len(bulks) - len(fresh), "then_ingest": len(fresh), "concurrently": concurrent, "then_crash_at": crashDesc}
 			active := w.Begin(desc) // when skipped (resume / replay of another case) the phase still runs to keep the history going
 			startSizes := fileSizes(dir)
 			res := h.SpawnPhase(work, "store", 2*time.Minute, nil, specPath)
@@ -473,7 +505,10 @@ func runC01(w *h.W, batch int) {
 					}
 				}
 			}
-			if bad == "" {
+			if concurrent {
+				w.Count("rounds_with_concurrent_bulks", 1)
+			}
+			if bad == "" && !concurrent { // the hook-log order monitor pairs writes with bulks by adjacency: sequential rounds only (concurrent ones: strace monitor)
 				if s := checkWriteOrder(hookEvs); s != "" {
 					class, bad = "write-order", s
 				}
